@@ -252,6 +252,7 @@ def stub_net(outcome_of):
     def fake(url, *a, **kw):
         u = url if isinstance(url, str) else url.full_url
         log.append(u)
+        u.encode("ascii")  # http.client puts the request line on the wire as ASCII: a non-ASCII URL raises UnicodeEncodeError there, too
         ident = u.rsplit("/", 1)[-1]
         ident = ident[:-4] if ident.endswith(".txt") else ident
         o = outcome_of(ident)
